@@ -9,7 +9,7 @@ use serde::Serialize;
 
 fn encode(fmt: &str, payload: &[u8]) -> Vec<u8> {
     match fmt {
-        "json" => format!("[{}]", payload.iter().map(|b| b.to_string()).collect::<Vec<_>>().join(",")).into_bytes(),
+        "json" | "jsonval" => format!("[{}]", payload.iter().map(|b| b.to_string()).collect::<Vec<_>>().join(",")).into_bytes(),
         "jsonstr" => format!("\"{}\"", payload.iter().map(|b| (b'a' + b % 26) as char).collect::<String>()).into_bytes(),
         _ => {
             let mut v = (payload.len() as u64).to_le_bytes().to_vec();
@@ -22,13 +22,15 @@ fn encode(fmt: &str, payload: &[u8]) -> Vec<u8> {
 fn de<T: DeserializeOwned>(fmt: &str, enc: &[u8]) -> Result<T, ()> {
     match fmt {
         "json" | "jsonstr" => serde_json::from_slice(enc).map_err(|_| ()),
+        // through serde_json::Value: unlike the text deserialiser, `from_value` hands the visitors a sequence WITH a size hint
+        "jsonval" => serde_json::from_slice::<serde_json::Value>(enc).and_then(serde_json::from_value).map_err(|_| ()),
         _ => bincode::deserialize(enc).map_err(|_| ()),
     }
 }
 
 fn ser<T: Serialize>(fmt: &str, v: &T) -> Vec<u8> {
     match fmt {
-        "json" | "jsonstr" => serde_json::to_vec(v).unwrap(),
+        "json" | "jsonstr" | "jsonval" => serde_json::to_vec(v).unwrap(),
         _ => bincode::serialize(v).unwrap(),
     }
 }
